@@ -7,6 +7,12 @@ the real output without trusting the layout.  Oracle (independent of the model):
 of all pages gives rows 0..n-1 once each in order, every rendered cell's text equals the display text of the
 value, exactly the displayed columns are rendered in their original order.  Correspondence: the sequence
 of data-row indices per page of the Lean layout equals the observed one.
+
+Documents nbase.. of a run are the *mixed text_convert* class: text_convert given per column (full or cyclic vector)
+or per cell (full or row-cyclic matrix) over ALL frame columns, including the page_by / subline_by columns that are
+removed from the display; a data cell whose own flag is off holds ^ _ >= <= (must be read back verbatim), a cell whose
+flag is on holds conversion-neutral text.  Single-section under every strategy, and multi-section with page_by /
+subline_by sections (the removed column anywhere among the columns).  Lean: Props/C02encflag.lean.
 """
 from __future__ import annotations
 
@@ -19,25 +25,57 @@ MANIFEST = dict(
          "rendering): the data rows of all pages concatenated are exactly rows 0..n-1 in order for every table, "
          "nrow, strategy and key sequence; every row sits on the page the pagination assigned to it; removed "
          "columns are exactly subline_by and (when spanning rows are shown) page_by, the rest keep their order. "
-         "Tied to the code on every run by observation of sentinel-tagged documents (single- and multi-section).",
+         "Encoder level (Props/C02encflag): the text_convert flag a data cell is written under is the one given for "
+         "the cell's ORIGINAL (row, column) — column removal and page slicing do not re-bind it — so a cell whose own "
+         "flag is off is written verbatim. "
+         "Tied to the code on every run by observation of sentinel-tagged documents (single- and multi-section), "
+         "incl. documents with per-column / per-cell text_convert over removed page_by / subline_by columns and "
+         "token-bearing (^ _ >= <=) cells wherever the cell's own flag is off.",
     note="Cell text equality is checked on the observation (reader decodes the bytes); that the escaper's bytes "
-         "decode to the text is C10's theorem. str() of values, polars slicing and pydantic are parameters.",
+         "decode to the text is C10's theorem. str() of values, polars slicing and pydantic are parameters. "
+         "Unconverted cells hold printable ASCII without \\ { } (text_convert off writes the text as raw RTF); "
+         "converted cells hold conversion-neutral text, as the property's quantifier says. group_by is outside C02.",
     technique="Lean 4 proof (partition of rows by monotone page numbers) + observation-level correspondence",
     design="7/C02",
 )
 
 RULE = ("seeded tagged tables (0..45 rows, 1..4 data columns incl. padded and blank-only strings, ints, floats with exponent/nan/inf forms, booleans, nulls) under every "
         "pagination strategy, header/footnote/source variant, text_convert on/off; plus multi-section documents; "
-        "non-trivial = ≥ 2 pages; distinct by (strategy, nrow, rows per page)")
+        "plus documents whose text_convert is given per column (full / cyclic vector, one column off, one column on) "
+        "or per cell (full / row-cyclic matrix) with differing values, over the data frame's columns incl. the "
+        "page_by / subline_by columns that are removed from the display, where every data cell whose own flag is off "
+        "holds printable ASCII with ^ _ >= <= (read back verbatim) and every cell whose flag is on holds "
+        "conversion-neutral text — single-section under every strategy and multi-section with page_by / subline_by "
+        "sections; non-trivial = ≥ 2 pages; distinct by (strategy, nrow, rows per page)")
 
 SAFE_OFF = "".join(c for c in string.printable[:94] if c not in "\\{}")  # printable ASCII without \ { }
 
 
-def mutate_cells(rng, spec, info, convert_off):
-    """turn some data columns into ints / floats / padded strings / nulls (column 0 keeps its tag)"""
+TOKENS = ["^", "_", ">=", "<=", "^2", "_i", "x^2", "a>=b", "p<=0.05", "ALT_SI", "<=>=", "^_", "__", "^^"]
+
+
+def token_text(rng, tag):
+    """tag + printable ASCII (no \\ { }) that contains at least one of the conversion tokens ^ _ >= <="""
+    parts = [tag, rng.choice(["", " ", "="])]
+    must = rng.randrange(3)
+    for p in range(3):
+        if p == must or rng.random() < 0.4:
+            parts.append(rng.choice(TOKENS))
+        elif rng.random() < 0.6:
+            parts.append("".join(rng.choice(SAFE_OFF) for _ in range(rng.randint(1, 3))))
+    return "".join(parts)
+
+
+def mutate_cells(rng, spec, info, convert_off, conv_at=None):
+    """turn some data columns into ints / floats / padded strings / nulls (column 0 keeps its tag).
+    `conv_at(i, c)` (row, column of the data frame) = the cell's own text_convert flag when the flag is not one scalar:
+    then column 0 may be free text as well (its tag stays in front) and a free cell holds conversion tokens exactly
+    when its own flag is off."""
     cols = spec["df"]["cols"]
     first = len(info["hier"])
     nd = info["ndata"]
+    if conv_at is not None:
+        return _mutate_cells_mixed(rng, spec, info, conv_at)
     kinds = ["tag"] + [rng.choice(["tag", "pad", "int", "float", "tag", "free", "bool", "float"]) for _ in range(nd - 1)]
     for j, kind in enumerate(kinds):
         cj = first + j
@@ -61,6 +99,146 @@ def mutate_cells(rng, spec, info, convert_off):
             elif kind == "free" and convert_off:
                 r[cj] = f"r{i}c{j}" + "".join(rng.choice(SAFE_OFF) for _ in range(rng.randint(0, 6)))
     info["kinds"] = kinds
+
+
+def _mutate_cells_mixed(rng, spec, info, conv_at):
+    first = len(info["hier"])
+    nd = info["ndata"]
+    kinds = [rng.choice(["tag", "free", "free"])]
+    kinds += [rng.choice(["free", "free", "free", "tag", "pad", "int", "float", "bool"]) for _ in range(nd - 1)]
+    nrows = len(spec["df"]["rows"])
+    off_cols = [j for j in range(nd) if any(not conv_at(i, first + j) for i in range(nrows))]
+    if off_cols and not any(kinds[j] == "free" for j in off_cols):
+        kinds[rng.choice(off_cols)] = "free"     # some column with a flag off holds token-bearing text
+    ntok = 0
+    for j, kind in enumerate(kinds):
+        cj = first + j
+        for i, r in enumerate(spec["df"]["rows"]):
+            if isinstance(r[cj], str) and " " in r[cj].strip():
+                continue  # a long (multi-line) text stays
+            if j > 0 and rng.random() < 0.08:
+                r[cj] = None
+            elif j > 0 and rng.random() < 0.04:
+                r[cj] = " " * rng.randint(1, 3)
+            elif kind == "free":
+                if not conv_at(i, cj):
+                    r[cj] = token_text(rng, f"r{i}c{j}")
+                    ntok += 1
+                # a converted cell keeps its conversion-neutral tag
+            elif kind == "pad":
+                r[cj] = " " * rng.randint(1, 3) + f"r{i}c{j}" + " " * rng.randint(0, 3)
+            elif kind == "int":
+                r[cj] = rng.randint(-999, 99999)
+            elif kind == "float":
+                r[cj] = rng.choice([0.5, 1.25, -3.75, 1e-3, 2.0, 1e-05, 2.5e+16, -0.0, float("nan"), 1 / 3])
+            elif kind == "bool":
+                r[cj] = rng.random() < 0.5
+    info["kinds"] = kinds
+    info["token_cells"] = ntok
+
+
+def gen_flags(rng, n, ncols, data_idx):
+    """a text_convert value with differing entries over an n x ncols frame → (value, shape label);
+    data_idx = frame indices of the data columns"""
+    shapes = ["col", "col", "one-off", "one-off", "one-on", "cell", "cell"]
+    if ncols >= 2:
+        shapes.append("col-cyclic")
+    if n >= 3:
+        shapes.append("cell-cyclic")
+    shape = rng.choice(shapes)
+    if shape in ("cell", "cell-cyclic") and n == 0:
+        shape = "col"
+    if shape == "col":
+        v = [rng.random() < 0.5 for _ in range(ncols)]
+        if ncols >= 2 and len(set(v)) == 1:
+            v[rng.randrange(ncols)] ^= True
+    elif shape in ("one-off", "one-on"):
+        on = shape == "one-off"
+        v = [on] * ncols
+        v[rng.choice(data_idx)] = not on
+    elif shape == "col-cyclic":
+        m = rng.randint(1, ncols - 1)
+        v = [rng.random() < 0.5 for _ in range(m)]
+        if m >= 2 and len(set(v)) == 1:
+            v[rng.randrange(m)] ^= True
+    else:
+        m = n if shape == "cell" else rng.randint(2, n - 1)
+        v = [[rng.random() < 0.5 for _ in range(ncols)] for _ in range(m)]
+    return v, shape
+
+
+MIX_STRATEGIES = ["page_by", "page_by", "page_by_np_first", "subline", "subline_page_by", "page_by_np", "plain"]
+
+
+def gen_mixed(rng, k):
+    """single-section document whose text_convert differs between columns / cells"""
+    spec, info = laygen.gen_spec(rng, strategy=rng.choice(MIX_STRATEGIES), n=rng.randint(1, 40),
+                                 dividers=(k % 4 == 0), nulls=0.0)
+    cols = spec["df"]["cols"]
+    first = len(info["hier"])
+    tc, shape = gen_flags(rng, info["n"], len(cols), list(range(first, len(cols))))
+    spec["body"]["text_convert"] = tc
+    mutate_cells(rng, spec, info, False, conv_at=lambda i, c: bool(laygen.attr_at(tc, i, c, True)))
+    di = [cols.index(c) for c in info["displayed"]]
+    info["expect"] = [[docgen.display(r[c]) for c in di] for r in spec["df"]["rows"]]
+    info["labels"] = ["convert:" + shape, "convert-removed-cols:%d" % len(info["removed"]),
+                      "convert-token-cells:" + ("0" if not info["token_cells"] else "1+")]
+    return spec, info
+
+
+def gen_multi_mixed(rng):
+    """multi-section document: sections with page_by (spanning rows) / subline_by / neither, each with its own
+    per-column or per-cell text_convert and token-bearing cells where the flag is off"""
+    nsec = rng.randint(2, 3)
+    frames, bodies, headers, expect = [], [], [], []
+    base = 0
+    shapes = []
+    for s in range(nsec):
+        n = rng.randint(1, 10)
+        nd = rng.randint(1, 3)
+        mode = rng.choice(["page_by", "page_by", "subline", "none"])
+        key = {"page_by": "PB0", "subline": "SL0"}.get(mode)
+        pos = rng.randint(0, nd) if key else None          # the removed column sits anywhere among the columns
+        dcols = [f"S{s}COL{j}" for j in range(nd)]
+        cols = list(dcols)
+        if key:
+            cols.insert(pos, key)
+        ncols = len(cols)
+        data_idx = [c for c in range(ncols) if cols[c] != key]
+        tc, shape = gen_flags(rng, n, ncols, data_idx)
+        shapes.append(shape)
+        keys = docgen.run_keys(rng, n, [("G0" if mode == "page_by" else "SB") + x for x in "abcd"], 1, 4) if key else None
+        rows = []
+        for i in range(n):
+            row = []
+            for c in range(ncols):
+                if cols[c] == key:
+                    row.append(keys[i])
+                    continue
+                j = data_idx.index(c)
+                tag = f"r{base + i}c{j}"
+                if j > 0 and rng.random() < 0.1:
+                    row.append(None)
+                elif not laygen.attr_at(tc, i, c, True) and rng.random() < 0.8:
+                    row.append(token_text(rng, tag))
+                else:
+                    row.append(tag)
+            rows.append(row)
+        frames.append(dict(cols=cols, rows=rows))
+        body = dict(text_convert=tc)
+        if mode == "page_by":
+            body["page_by"] = [key]
+        elif mode == "subline":
+            body["subline_by"] = [key]
+        bodies.append(body)
+        headers.append([dict(text=[f"HD{s}c{j}" for j in range(nd)])] if rng.random() < 0.6 else [None])
+        expect += [[docgen.display(r[c]) for c in data_idx] for r in rows]
+        base += n
+    spec = dict(kind="multi", df=frames, body=bodies, headers=headers, page=dict(nrow=rng.randint(6, 30)),
+                footnote=dict(text="FTNOTE") if rng.random() < 0.4 else None)
+    info = dict(strategy="multi", header_mode="multi", n=base, model=False, page_by=None, subline_by=None,
+                expect=expect, labels=["convert-multi:" + sh for sh in sorted(set(shapes))])
+    return spec, info
 
 
 def gen_multi(rng):
@@ -90,10 +268,16 @@ def gen_multi(rng):
 class C02(layfamily.Family):
     prop, tag = "C02", "c02"
 
-    def ndocs(self, tier):
+    def nbase(self, tier):
         return 320 if tier == "quick" else 5000
 
+    def ndocs(self, tier):
+        # the documents after the first nbase are the per-column / per-cell text_convert class
+        return self.nbase(tier) + (160 if tier == "quick" else 2000)
+
     def gen(self, rng, k, tier):
+        if k >= self.nbase(tier):
+            return gen_multi_mixed(rng) if k % 8 == 7 else gen_mixed(rng, k)
         if k % 9 == 8:
             return gen_multi(rng)
         convert_off = rng.random() < 0.3
@@ -146,8 +330,9 @@ def run(res, build):
         FAM, res, build, RULE, layfamily.TRUSTED_COMMON, layfamily.ASSUME_COMMON,
         explanation="C02_pages_structure / C02_rows_once_in_order / C02_row_on_its_page hold for every LDoc (any "
                     "row count, nrow, keys, flags); cell-level clauses C02_kept_cols_order / C02_row_cells for every "
-                    "column list. Multi-section documents are covered by the observation oracle only (the layout "
-                    "model is single-section; each section runs the same pipeline).")
+                    "column list; C02encflag_cell_own_flag / C02encflag_off_verbatim: per-column / per-cell "
+                    "text_convert binds to the cell's original position. Multi-section documents are covered by the "
+                    "observation oracle only (the layout model is single-section; each section runs the same pipeline).")
 
 
 def replay(payload):
